@@ -268,7 +268,7 @@ func genC09Base(t *rapid.T) *sgen.Feed {
 	o := sgen.DefaultGenOpts()
 	o.MinTrips, o.MinStopTimes, o.MinShapes, o.MinPoints = 1, 1, 1, 1
 	o.ExplicitDefaults = rapid.Bool().Draw(t, "explicit")
-	if tierThorough() && rapid.IntRange(0, 4).Draw(t, "large") == 0 {
+	if rapid.IntRange(0, 49).Draw(t, "large") < map[bool]int{true: 10, false: 1}[tierThorough()] {
 		o = sgen.LargeGenOpts()
 		o.MinTrips, o.MinStopTimes, o.MinShapes, o.MinPoints = 1, 1, 1, 1
 	}
